@@ -595,8 +595,9 @@ def run_unit(job, spec):
             if not rels:
                 continue
             pp.prove(oname, rels, handler(scn, oname, o, spec), sample=(pi == 0 and oname != "defined"))
-            if oname == "grid":
-                # whatever is wrong with the grid is reported once, here
+            if oname == "grid" or oname.startswith("lemma:"):
+                # grid: whatever is wrong with it is reported once, here;
+                # lemma: an intermediate identity, proved first, then used
                 pp.add_hyps([r.z3() for r in rels])
         done += 1
         if done <= 2:
